@@ -55,16 +55,28 @@ def run_worker(prop, tier, seed, index, out, replay=None):
                     break
                 rng = random.Random(f"{seed}:{index}:{n}")
                 ctx.current_case = None
+                nviol, mechs = len(ctx.violations), ctx.viol_mechs.copy()
+                alarm = case_alarm(per_case)
                 try:
-                    with case_alarm(per_case):
+                    with alarm:
                         mod.run_one(rng, ctx)
+                    if alarm.fired:
+                        raise CaseTimeout()
                     ctx.evaluations += 1
                 except CaseTimeout:
+                    # nothing a case concluded after its watchdog fired is believed
+                    del ctx.violations[nviol:]
+                    ctx.viol_mechs = mechs
                     ctx.count("case_timeouts")
                     ctx.notes.setdefault("timeouts", []).append(ctx.current_case)
                 except Inconclusive as e:
                     ctx.inconc(str(e))
                 except Exception as e:  # harness error: never a verdict
+                    if alarm.fired:
+                        del ctx.violations[nviol:]
+                        ctx.viol_mechs = mechs
+                        ctx.count("case_timeouts")
+                        continue
                     herr += 1
                     ctx.count("harness_errors")
                     lst = ctx.notes.setdefault("harness_errors", [])
